@@ -20,7 +20,7 @@ func init() { Registry["C12"] = run }
 
 const defaultLen = 45
 
-const coqHeader = "From Kava Require Import Base.Prelude Model.Staking Model.Tally Model.Liquid Model.TallyTie Model.LiquidMsg."
+const coqHeader = "From Kava Require Import Base.Prelude Model.Staking Model.Tally Model.Liquid Model.TallyTie Model.LiquidMsg Model.SavListing."
 
 type Hist struct {
 	Seed  uint64 `json:"seed"`
@@ -158,7 +158,20 @@ func genOp(r *Rng, s *snap, step, n int) Op {
 	if step < 6 {
 		wSlash = 18 // slashed validators (exchange rate below one) early in most histories
 	}
-	switch r.Pick(14, 6, 5, wSlash, 3, 2, 6, 22, 18, 6, 5, 3, 8) {
+	// a savings parameter change: "bkava" leaves SupportedDenoms (mostly while derivatives sit in
+	// savings deposits) and comes back later
+	wList := 1
+	if !s.listed {
+		wList = 2
+	} else if len(savs) > 0 {
+		wList = 4
+	}
+	switch r.Pick(14, 6, 5, wSlash, 3, 2, 6, 22, 18, 6, 5, 3, 8, wList) {
+	case 13:
+		if r.Chance(1, 10) {
+			return Op{Kind: "savlist", Listed: s.listed} // a change that changes nothing
+		}
+		return Op{Kind: "savlist", Listed: !s.listed}
 	case 0:
 		a, i := r.Intn(users), pickVal(r, s)
 		return Op{Kind: "delegate", A: a, V: i, Amt: genAmount(r, big.NewInt(int64(1_000_000+r.Intn(2_000_000_000)))).String()}
@@ -301,7 +314,23 @@ func genOp(r *Rng, s *snap, step, n int) Op {
 func scenario(r *Rng, st Setup) []Op {
 	one := "1.000000000000000000"
 	yes := func(a int) Vote { return Vote{Voter: a, Opts: []VoteOpt{{0, one}}} }
-	switch r.Intn(8) {
+	switch r.Intn(10) {
+	case 8, 9: // derivatives deposited in savings while "bkava" is a supported denom, then de-listed: holder and validator vote
+		no := func(a int) Vote { return Vote{Voter: a, Opts: []VoteOpt{{2, one}}} }
+		amt := 1_000_000 + r.Intn(400_000_000)
+		part := 1 + r.Intn(amt)
+		return []Op{{Kind: "delegate", A: 1, V: 2, Amt: fmt.Sprint(amt + r.Intn(1000))}, {Kind: "mint", A: 1, V: 2, Amt: fmt.Sprint(amt)},
+			{Kind: "stash", Place: "savings", A: 1, V: 2, Amt: fmt.Sprint(part)},
+			{Kind: "tally", Votes: []Vote{yes(1), no(6)}},
+			{Kind: "savlist", Listed: false},
+			{Kind: "tally", Votes: []Vote{yes(1), no(6)}},
+			{Kind: "stash", Place: []string{"savings", "earn"}[r.Intn(2)], A: 1, V: 2, Amt: "1"},
+			{Kind: "tally", Votes: []Vote{yes(1)}},
+			{Kind: "unstash", Place: "savings", A: 1, V: 2, Amt: fmt.Sprint(1 + r.Intn(part))},
+			{Kind: "tally", Votes: []Vote{yes(1), no(6), yes(0)}},
+			{Kind: "savlist", Listed: true},
+			{Kind: "stash", Place: "savings", A: 1, V: 2, Amt: "1"},
+			{Kind: "tally", Votes: []Vote{yes(1), no(6)}}}
 	case 7: // two validators with minted derivatives; the holder of the (slashed) one's derivative names the other one
 		return []Op{{Kind: "delegate", A: 0, V: 1, Amt: "3000000"}, {Kind: "delegate", A: 1, V: 2, Amt: "3000000"},
 			{Kind: "slash", V: 1, Power: 2, Factor: "0.500000000000000000"},
@@ -417,6 +446,14 @@ func coqDenom(d int) string {
 	return "(DDeriv " + Nat(d) + ")"
 }
 
+// coqSop renders an operation of Model/SavListing.v: a savings parameter change, or a message
+func coqSop(op Op) string {
+	if op.Kind == "savlist" {
+		return "SSetListed " + Bool(op.Listed)
+	}
+	return "SMsg (" + coqOp(op) + ")"
+}
+
 // coqOp renders a message-level operation of Model/LiquidMsg.v
 func coqOp(op Op) string {
 	amt := Z(bigOf(op.Amt))
@@ -528,7 +565,7 @@ func (w *world) coqEnvState(s *snap) string {
 		}
 	}
 	st := fmt.Sprintf("(mk_state %s %s %s)", List(vs), List(ds), ZList(s.bal))
-	return env + "\n  " + st
+	return env + "\n  " + st + "\n  " + Bool(s.listed)
 }
 
 // ------------------------------------------------------------ history runner
@@ -602,7 +639,7 @@ func runHist(seed uint64, idx, n int, st *Setup, ops []Op, cnt *Counters) (o run
 			o.okOps++
 		}
 		splits(op, res, prev, after, o.splits, cnt)
-		steps = append(steps, fmt.Sprintf("(%s,\n    %s,\n    %s)", coqOp(op), coqObs(res, prev, after), coqTallyIn(res.tin)))
+		steps = append(steps, fmt.Sprintf("(%s,\n    %s,\n    %s)", coqSop(op), coqObs(res, prev, after), coqTallyIn(res.tin)))
 		for _, f := range monitor(w, op, res, prev, after) {
 			if !seenSig[f.sig] {
 				seenSig[f.sig] = true
@@ -611,7 +648,7 @@ func runHist(seed uint64, idx, n int, st *Setup, ops []Op, cnt *Counters) (o run
 		}
 		prev = after
 	}
-	o.coq = fmt.Sprintf("mkHist3 %s\n  %s", header, List(steps))
+	o.coq = fmt.Sprintf("mkHist4 %s\n  %s", header, List(steps))
 	return
 }
 
@@ -648,6 +685,29 @@ func splits(op Op, r result, b, a *snap, seen map[string]bool, cnt *Counters) {
 	}
 	op = plainKind(op)
 	switch op.Kind {
+	case "savlist":
+		if r.cls == ClassOk && b.listed && !a.listed {
+			mark("savlist:delisted")
+			for x := 0; x < nAcc; x++ {
+				for i := 0; i < nVal; i++ {
+					if b.sav[x][i].Sign() > 0 {
+						mark("savlist:delisted-with-derivatives-in-savings")
+					}
+				}
+			}
+		}
+		if r.cls == ClassOk && !b.listed && a.listed {
+			mark("savlist:relisted")
+		}
+	case "stash":
+		if !b.listed && r.cls != ClassOk && inRangeU(op.A) && inRangeV(op.V) && bigOf(op.Amt).Sign() > 0 &&
+			b.dbal[op.A][op.V].Cmp(bigOf(op.Amt)) >= 0 && b.vals[op.V].Exists {
+			mark("stash:refused-while-delisted:" + op.Place)
+		}
+	case "unstash":
+		if !b.listed && r.cls == ClassOk && op.Place == "savings" {
+			mark("unstash:savings-while-delisted")
+		}
 	case "mint", "burn":
 		if !inRangeU(op.A) || !inRangeV(op.V) {
 			return
@@ -730,6 +790,9 @@ func splits(op Op, r result, b, a *snap, seen map[string]bool, cnt *Counters) {
 				}
 				if b.sav[v.Voter][i].Sign() > 0 {
 					mark("tally:derivative-in-savings")
+					if !b.listed && b.curr(i) {
+						mark("tally:derivative-in-savings-while-delisted")
+					}
 				}
 				if b.ern[v.Voter][i].Sign() > 0 {
 					mark("tally:derivative-in-earn")
@@ -764,6 +827,8 @@ var allSplits = []string{
 	"tally:derivative-in-wallet", "tally:derivative-in-savings", "tally:derivative-in-earn", "tally:derivative-of-non-bonded-validator",
 	"tally:validator-votes", "tally:delegator-votes", "tally:weighted-vote", "tally:passes",
 	"burnmsg:other-validator-with-derivatives-refused", "mintmsg:derivative-denom-refused",
+	"savlist:delisted", "savlist:delisted-with-derivatives-in-savings", "savlist:relisted", "stash:refused-while-delisted:savings",
+	"stash:refused-while-delisted:earn", "unstash:savings-while-delisted", "tally:derivative-in-savings-while-delisted",
 }
 
 // plainKind: a message-level mint / burn whose denom is the one every ordinary client sends is the
@@ -808,7 +873,7 @@ func run(o Opts) (*Result, error) {
 		n = defaultLen
 	}
 	res := &Result{Property: "C12", Seed: o.Seed,
-		Rule: "histories of " + fmt.Sprint(n) + " operations (staking messages, slash/jail, end blocker, liquid mint/burn incl. messages whose coin denom and validator field disagree, derivative transfers and savings/earn custody, governance tallies) generated from splitmix64(seed, history index) on a fresh app.TestApp with three extra validators; a history is non-trivial when it contains a successful mint or burn on a validator whose exchange rate is not one, or a tally with derivative-holding voters; distinct by hash of setup and operation list"}
+		Rule: "histories of " + fmt.Sprint(n) + " operations (staking messages, slash/jail, end blocker, liquid mint/burn incl. messages whose coin denom and validator field disagree, derivative transfers and savings/earn custody, savings parameter changes that remove \"bkava\" from SupportedDenoms and put it back, governance tallies) generated from splitmix64(seed, history index) on a fresh app.TestApp with three extra validators; a history is non-trivial when it contains a successful mint or burn on a validator whose exchange rate is not one, or a tally with derivative-holding voters; distinct by hash of setup and operation list"}
 	cnt := NewCounters()
 
 	if o.Replay != "" {
@@ -824,7 +889,7 @@ func run(o Opts) (*Result, error) {
 			return nil, fmt.Errorf("replay file has no setup")
 		}
 		ro := runHist(h.Seed, h.Idx, 0, &h.Setup, h.Ops, cnt)
-		name, err := WriteShard(o.OutDir, 0, coqHeader, []string{ro.coq}, "mismatches3")
+		name, err := WriteShard(o.OutDir, 0, coqHeader, []string{ro.coq}, "mismatches4")
 		if err != nil {
 			return nil, err
 		}
@@ -875,7 +940,7 @@ func run(o Opts) (*Result, error) {
 		if len(cases) == 0 {
 			return nil
 		}
-		name, err := WriteShard(o.OutDir, shard, coqHeader, cases, "mismatches3")
+		name, err := WriteShard(o.OutDir, shard, coqHeader, cases, "mismatches4")
 		if err != nil {
 			return err
 		}
